@@ -163,7 +163,15 @@ impl PageLockShard {
     fn try_cleanup(&self, page_id: PageId, entry: &PageLockEntry) {
         if entry.release() {
             let mut map = self.locks.lock();
-            if entry.ref_count.load(Ordering::Acquire) == 0 {
+            // Only remove the entry we released. Between `release()` and taking the map
+            // lock another thread may have revived, released and removed this entry and a
+            // third one may have inserted a fresh entry for the same page: removing by key
+            // alone would drop that live entry and hand out a second lock for the page.
+            if entry.ref_count.load(Ordering::Acquire) == 0
+                && map
+                    .get(&page_id)
+                    .is_some_and(|current| std::ptr::eq(Arc::as_ptr(current), entry))
+            {
                 map.remove(&page_id);
             }
         }
